@@ -262,5 +262,6 @@ def run(prog: Program, rep: Report, tier: str):
     c11.r11_7(prog, sub, rule="R07.7")
     absorb(rep, sub, {"R07.7": "R07.7"})
     c11.module_binds_name(prog, rep, "R07.7")  # (a classic recursive value alias reports `typing` as its module)
+    c11.stack_walk_from_caller(prog, rep, "R07.7")
     c03.r03_1(prog, rep, direction="unmarshal", rule="R07.5")
     c03.r03_1(prog, rep, direction="marshal", rule="R07.5")
